@@ -425,7 +425,7 @@ func deepCopy(v any) any {
 	return x
 }
 
-var protectedKeys = map[string]bool{"rundir": true, "marker": true, "now_ns": true, "wait_ms": true, "live_offsets_ms": true}
+var protectedKeys = map[string]bool{"system_trust": true, "rundir": true, "marker": true, "now_ns": true, "wait_ms": true, "live_offsets_ms": true}
 
 // candidates enumerates one-step reductions of a JSON value.
 func candidates(v any) []any {
